@@ -115,6 +115,18 @@ func extractC20(repo string) (string, error) {
 		}
 		writeList("conditions and counters of "+fn, "plan"+strings.ToUpper(fn[:1])+fn[1:], conds(fd))
 	}
+	for _, x := range [][2]string{{"selectLargestSurplusSlot", "selL"}, {"selectSmallestDeficitSlot", "selS"}} {
+		t, err := c20Select(rf, x[0], x[1])
+		if err != nil {
+			return "", err
+		}
+		b.WriteString(t)
+	}
+	pt, err := c20Pop(rf)
+	if err != nil {
+		return "", err
+	}
+	b.WriteString(pt)
 	b.WriteString("end WK.Gen.C20\n")
 	return b.String(), nil
 }
